@@ -95,3 +95,13 @@ Example C18_dollar_example :
   chain_path0 (SDot [97]) [RPlain (SWild false); RRec (SIdx [48])] = [97; 91; 42; 93; 46; 46; 91; 48; 93] /\
   chain_path (RPlain (SDot [97]) :: [RPlain (SWild false); RRec (SIdx [48])]) = [36; 46; 97; 91; 42; 93; 46; 46; 91; 48; 93].
 Proof. split; vm_compute; reflexivity. Qed.
+
+
+(* leading and trailing spaces: the padded text is accepted and Parse returns THE SAME TREE as for the bare text, so
+   every behaviour (values, errors, accessors) is identical *)
+From JP Require Import SpacePath.
+Theorem C18_outer_spaces_same_tree : forall cfg parse_float regex_ok n1 n2 s r, forallb rstep_ok (s :: r) = true ->
+  parse_with cfg parse_float regex_ok jsonpath_grammar (padded_path n1 n2 (s :: r)) =
+  parse_with cfg parse_float regex_ok jsonpath_grammar (chain_path (s :: r)).
+Proof. exact padded_same_parse. Qed.
+Print Assumptions C18_outer_spaces_same_tree.
